@@ -9,6 +9,7 @@ import numpy as np
 
 from vf import common, gen, refmdp, shipped
 
+SIBLING_EVERY = 4      # every n-th case is followed by a same-shape sibling problem/solver in the same process (vf/worker.py)
 LEVEL = "exploration"
 RULE = ("cases = (generated tabular MDP | reduced shipped problem) x (vi/span, vi/max_diff, "
         "pi/span, pi/max_diff, semi-async/max_diff with and without shuffling, semi-async/span) x "
